@@ -723,6 +723,12 @@ class Randomizer(RandIF):
                 ConstraintOverrideRollbackVisitor.rollback(fm)
                 # Solver handles must not outlive the call, however it ends
                 _dispose_fields(fm, set(), None if ok else randsz_len_m)
+                if not ok:
+                    # Fields are locked as they are solved. A call that fails 
+                    # must not leave the remaining ones marked as variables: 
+                    # a stand-alone field would be solved (and overwritten) 
+                    # by the next call whose constraints merely read it
+                    fm.set_used_rand(False, 0)
             for c in constraint_l:
                 # Inline constraints reach dynamic-constraint blocks, whose
                 # foreach expansions must not outlive the call either
